@@ -36,7 +36,7 @@ for n, tier in ((0, "quick"), (1, "quick"), (2, "quick"), (3, "quick"), (4, "qui
     nm = "line_col_n%d" % n
     add(nm, "7.f", "line_col_step!(%s, %d, %d);" % (nm, n, n + 4), file=DG, tier=tier, timeout=1200, mem_gb=10,
         shape={"text_bytes": n, "position": "any boundary 0..N", "alphabet": ALPH + " incl. CR, LF, CRLF, tab"})
-for n, tier in ((1, "quick"), (2, "quick"), (3, "quick"), (4, "thorough")):
+for n, tier in ((1, "quick"), (2, "quick"), (3, "quick")):   # N = 4 ran out of memory at 12 GB (430 s) in the thorough tier: not registered
     nm = "tabs_n%d" % n
     add(nm, "7.f", "tabs_step!(%s, %d, %d);" % (nm, n, 4 * n + 3), file=DG, tier=tier, timeout=1200, mem_gb=10,
         shape={"text_bytes": n, "alphabet": ALPH + " incl. tab"})
